@@ -656,6 +656,9 @@ func (t *timeline) run() {
 	if every <= 0 {
 		every = 1
 	}
+	if p.Knobs.SparseObserve && t.path == "" {
+		w.count("probe_giant_or_long_log_plan")
+	}
 	lastStmt := -1
 	if p.Knobs.CacheOnly {
 		t.unmodelled = true
@@ -758,7 +761,18 @@ func (t *timeline) run() {
 		if w.Stats["lru_refuse"] > 0 && w.Viol == nil {
 			// the cache refused a page: dirty pages filled it (ticks withheld).
 			// The cache monitor has checked the refusal itself; what the engine
-			// does after ErrLRUCacheFull is outside every listed property.
+			// does after ErrLRUCacheFull is outside every listed property - but
+			// one: C11 knows no exception for a failed insertion. The statement is
+			// over (refused); whatever it did before, the trees must be well
+			// formed. Contents are not judged.
+			if w.Prop == "C11" && res.Panic == "" && res.Err != nil && w.Sess != nil && w.Sess.RelationService != nil {
+				w.count("tree_walk_after_cache_refusal")
+				if te, _ := w.CheckTrees(w.Sess.RelationService, false); te != nil {
+					t.violate("O-tree", fmt.Sprintf("after statement %d (%s), which the page cache refused half-way: %s", i, describe(s), te.detail),
+						map[string]string{"how": "tree", "class": te.kind, "after": "cache-refusal"}, i)
+					break
+				}
+			}
 			t.r.res.Abandoned = "precondition: page cache refused a page (full of dirty pages)"
 			w.count("abandoned_cache_refused")
 			t.stop = true
